@@ -514,7 +514,8 @@ func (r *ResyncManagerDCP) invalidatePrincipals(ctx context.Context, db *Databas
 		if err != nil {
 			return fmt.Errorf("Error updating principal sequences: %w", err)
 		}
-		return nil
+		// fall through: regenerating the principal sequences does not recompute the principals' channels and roles,
+		// so the computed access still has to be invalidated when documents were changed by this resync.
 	}
 
 	if r.DocsChanged() > 0 {
